@@ -204,6 +204,76 @@ def gen_poll_case(rng, i, tier, stats):
     return case
 
 
+def gen_scorer_cases(seed, tier, stats):
+    """scorer-configuration family (closer, class of seeded C04-fm2): the score clause (aligned word score = acoustic part of
+    the first-pass score, exact under compallsen=yes) under every documented scorer option that changes WHICH frames / Gaussians
+    are fully evaluated — ds (frame downsampling of the GMM computation, default 1) in {2, 3} (+ a ds=1 control), topn in
+    {default 4, 2, 1} — crossed with utterance lengths of EVERY residue mod ds (n, n-1 shift, n-2 shifts: consecutive frame
+    counts) and with final AND partial requests (streamed, call size 7 frame shifts — coprime to 2 and 3 — partial requests
+    after three consecutive calls, so the requests fall on every residue too).  compallsen=yes in the grid (both passes see
+    the same senone scores, so the existing exact oracle applies; half of the cells with the beams off so that a mismatch in
+    either direction is a violation); the thorough tier adds random crossings with everything gen_case draws (compallsen=no
+    included: only the hierarchy clauses are exact there).  Own Rng stream: the other families keep their cases per seed."""
+    rng = vlib.Rng(seed * 1000003 + 707).fork()
+    path, skip, total, model, extra = AUDIO["goforward"]
+    shift, out = 160, []
+    grid = [(ds, r) for ds in (2, 3) for r in range(ds)] + [(1, 0)]
+    reps = 1 if tier == "quick" else 6
+    k = 0
+    for rep in range(reps):
+        q = rng.range(0, 30)                    # cut inside the trailing silence: the hypothesis stays complete
+        for ds, r in grid:
+            n = total - shift * (q + r)
+            cfg = {"compallsen": "yes", "ds": str(ds)}
+            if (k + rep) % 2 == 0:
+                cfg.update({"beam": "0", "pbeam": "0", "wbeam": "0", "maxhmmpf": "-1"})
+            tn = rng.weighted([(None, 50), ("2", 25), ("1", 25)])
+            if tn:
+                cfg["topn"] = tn
+            if rng.chance(0.4):
+                cfg["bestpath"] = "no"
+            if rng.chance(0.5):
+                cfg["wip"], cfg["pip"] = "1.0", "1.0"
+            gk = rng.weighted([("text", 70), ("jsgf", 30)])
+            gram = rng.choice(TEXTS["goforward"][:1] + TEXTS["goforward"][8:10]) if gk == "text" else JSGF["goforward"][0]
+            mode = rng.weighted([("stream", 60), ("nogrow", 20), ("full", 20)]) if rep else "stream"
+            chunk = 7 * shift
+            ncalls = (n + chunk - 1) // chunk
+            p0 = rng.range(9, max(9, ncalls - 5))
+            partials = [p0, p0 + 1, p0 + 2] if mode != "full" else []
+            out.append({"id": f"sc{k}", "family": "scorer", "model": model, "cfg": cfg, "gram": [gk, gram],
+                        "audio": [str(path), skip, 0, n], "chunkseq": [], "utts": [], "preend": int(rng.chance(0.3)),
+                        "addwords": [], "noise": None, "tmatskip": 0, "audio_name": "goforward", "mode": mode, "chunk": chunk,
+                        "partials": partials, "early": 0, "dumpsen": 0, "json": gen_json(rng), "renormprobe": 0, "deadprobe": 0})
+            k += 1
+    if tier != "quick":
+        for i in range(60):
+            cs = gen_case(rng, f"scx{i}", tier, stats)
+            cs["id"], cs["family"] = f"scx{i}", "scorer"
+            cs["cfg"]["ds"] = rng.choice(["2", "3"])
+            if rng.chance(0.5):
+                cs["cfg"]["topn"] = rng.choice(["1", "2", "8"])
+            if rng.chance(0.6):
+                cs["cfg"]["compallsen"] = "yes"
+            cs["dumpsen"], cs["tmatskip"], cs["json"], cs["renormprobe"], cs["deadprobe"] = 0, 0, gen_json(rng), 0, 0
+            out.append(cs)
+    return out
+
+
+def note_scorer(case, tag, outframe, hb, stats, nexact, nmism):
+    """distribution of the scorer family into the evidence: per (ds, kind of request) the residue of the number of frames the
+    first pass had searched when the request was made, and how many words the exact score oracle compared there"""
+    cfg = case.get("cfg", {})
+    ds = int(cfg.get("ds", "1"))
+    sc = stats.setdefault("scorer", {})
+    kind = "final" if tag.endswith("final") else "partial"
+    key = f"ds={ds} {kind} searched-frames%ds={outframe % ds}"
+    e = sc.setdefault(key, {"requests": 0, "words_compared_exactly": 0, "words_differing": 0})
+    e["requests"] += 1
+    e["words_compared_exactly"] += nexact
+    e["words_differing"] += nmism
+
+
 # ---- the JSON observation point: decoder_result_json(d, start, align_level) --------------------------------------
 # positions of the utterance: zero, positive, negative, fractional (1/3, a %.3f tie, below the rendered precision),
 # large (an hour, a day).  |start| <= 1e5 so that the double rounding of start + frame/frate stays below EPS.
@@ -816,6 +886,7 @@ def judge_block(case, hb, db, ci_names, stats):
         mism = [x for x in diffs if x[2] != x[3]]
         if case["cfg"].get("compallsen") == "yes":
             stats["score_clause_exact_words"] += len(diffs)
+            note_scorer(case, tag, outframe, hb, stats, len(diffs), len(mism))
             nobeam = case["cfg"].get("beam") == "0"
             for x in mism:
                 i, name, got, exp = x
@@ -1129,6 +1200,13 @@ def check(c):
         if jrng.chance(0.12):
             cs["cfg"]["frate"] = jrng.choice(["50", "125", "200", "90"])
             stats["cfg"]["frate=" + cs["cfg"]["frate"]] = stats["cfg"].get("frate=" + cs["cfg"]["frate"], 0) + 1
+    # scorer-configuration family (ds x topn x frame-count residues x final/partial), own stream, appended after the loop above
+    cases += gen_scorer_cases(c.seed, c.tier, stats)
+    ncases = len(cases)
+    for cs in cases:        # configuration distribution of ALL generated cases: which scorer options are drawn at all
+        for k in ("ds", "topn"):
+            kk = f"{k}=" + cs["cfg"].get(k, "default")
+            stats["cfg"][kk] = stats["cfg"].get(kk, 0) + 1
     # a few cases also dump the senone scores of a hand-stepped second pass (step model, see driver)
     for cs in cases[:3]:
         c.samples.append({k: cs[k] for k in ("gram", "audio", "mode", "chunk", "partials", "cfg")})
@@ -1179,6 +1257,15 @@ def check(c):
     c.oblige("correspondence: populate + windows + backtrace + propagate of the model = real code on every dumped token stack; "
              "WFTokens and NoSkip hold on the dumped data; the step model reproduces the token stack from the dumped senone scores",
              allok)
+    sc = stats.get("scorer", {})
+    need = [f"ds={ds} final searched-frames%ds={r}" for ds in (2, 3) for r in range(ds)]
+    miss = [k for k in need if sc.get(k, {}).get("words_compared_exactly", 0) == 0]
+    npart = {ds: sorted({k for k in sc if k.startswith(f"ds={ds} partial") and sc[k]["words_compared_exactly"] > 0}) for ds in (2, 3)}
+    c.oblige("scorer-configuration family: under compallsen=yes the exact score oracle (aligned word score = first-pass acoustic "
+             "part) judged a FINAL request for ds = 2 and 3 at every residue of the searched frame count mod ds, and PARTIAL "
+             "requests at >= 2 different residues for each of ds = 2, 3 (frame downsampling: the second pass must fully evaluate "
+             "the same frames as the first)", not miss and all(len(v) >= 2 for v in npart.values()),
+             {"missing_final_cells": miss, "partial_cells": npart, "cells": sc})
     c.oblige("dead-final-state probe (C04_dead_final_no_alignment on the real search): every truncated hand-stepped pass is "
              "reproduced by the step model, state_align_search_finish fails on it exactly when the model's exit score is dead; "
              "when >= 6 probes ran, a dead exit state with history -1, a dead one with a history that is not -1, and an alive "
